@@ -31,6 +31,9 @@ pub struct RustDocument {
     too_deep: std::collections::HashSet<NodeId>,
     /// set while a lookup fails because such a chain was cut
     chain_cut: bool,
+    /// how deep inside their own components the references sit that are being followed: all those levels are on the
+    /// stack at once
+    resolving_nesting: usize,
 }
 
 /// The kind of global component a reference is looking for; types and elements have separate symbol spaces in XSD
@@ -119,6 +122,7 @@ impl RustDocument {
             resolved: HashMap::new(),
             too_deep: std::collections::HashSet::new(),
             chain_cut: false,
+            resolving_nesting: 0,
         }
     }
 
@@ -262,6 +266,8 @@ fn create_mod_name_for_namespace(abbreviation: &str) -> String {
 }
 
 const MAX_FORWARD_REFERENCE_DEPTH: usize = 256;
+/// element levels between the components on a chain of forward references and the references that continue it
+const MAX_FORWARD_REFERENCE_NESTING: usize = 4096;
 
 fn try_to_find_node_by_xml_name_in_xml_doc<'n>(
     start_node: &'n Node<'n, 'n>,
@@ -270,6 +276,9 @@ fn try_to_find_node_by_xml_name_in_xml_doc<'n>(
     kind: ComponentKind,
     doc: &mut RustDocument,
 ) -> WriterResult<Rc<RustNode>> {
+    // a reference deep inside nested groups keeps all those levels on the stack while its target is read
+    let nesting = start_node.ancestors().count();
+
     // get to the root of the document from the start node
     let mut start_node = *start_node;
     while let Some(parent) = start_node.parent() {
@@ -316,6 +325,13 @@ fn try_to_find_node_by_xml_name_in_xml_doc<'n>(
                         "{xml_name} (more than {MAX_FORWARD_REFERENCE_DEPTH} forward references deep)"
                     )));
                 }
+                // the same for a shorter chain whose links sit deep inside nested groups
+                if doc.resolving_nesting + nesting > MAX_FORWARD_REFERENCE_NESTING {
+                    doc.chain_cut = true;
+                    return Err(WriterError::NodeNotFound(format!(
+                        "{xml_name} (forward references nested more than {MAX_FORWARD_REFERENCE_NESTING} levels deep)"
+                    )));
+                }
 
                 // the component is read in the context of its own schema (another inline schema of a WSDL, perhaps):
                 // that schema's target namespace and the prefixes in scope there; afterwards the referring
@@ -326,7 +342,9 @@ fn try_to_find_node_by_xml_name_in_xml_doc<'n>(
                     doc.switch_to_target_namespace(target_namespace);
                 }
                 doc.resolving.push(node.id());
+                doc.resolving_nesting += nesting;
                 let rust_node = RustNode::try_from_node(node, doc);
+                doc.resolving_nesting -= nesting;
                 doc.resolving.pop();
                 doc.namespace_lookup = saved_lookup;
                 doc.current_target_namespace = saved_target_namespace;
